@@ -77,7 +77,7 @@ def check_case(U, kind, r, s, lo, hi, tol, dtype, failures, counts, req_all_p7=T
         if k and not (abs(float(f(np.asarray(x, dtype=dtype)))) <= tol_eff or sign_change_within(f, np.asarray(x, dtype=dtype), max(tol_eff, ulp_slack), lo, hi)):
             fail("P4-" + nm)
     # P5/P2 sign change => success and located (only where the 64-iteration cap cannot bind: span/tol < 2^40)
-    reachable = tol_eff >= ulp_slack          # |b - a| < tol can be met by distinct floats of this magnitude
+    reachable = True          # the stopping test |b - a| <= tol * max(1, |a|, |b|) can be met by adjacent floats of any magnitude (F9b repaired)
     if sc and reachable and span / tol_eff < 2.0 ** 40:
         for nm, x, k in (("scalar", root_f, ok), ("vector", rv_f, okv)):
             if not k:
